@@ -2,7 +2,7 @@
  * resumed exactly once; programs that can always make progress terminate on 1-3 workers, also across re-centring
  * of the queue storage and with a custom steal function that peeks, declines and accepts. */
 #include "hcommon.h"
-enum { FM_FAN, FM_SLIDE, FM_CLIMB, FM_MUTEX, FM_CUSTOM, FM_OCCUPY };
+enum { FM_FAN, FM_SLIDE, FM_CLIMB, FM_MUTEX, FM_CUSTOM, FM_OCCUPY, FM_YIELDEX };
 typedef struct { int fam, n, y, W, K; } prog_t;
 #define MAXP 300
 static prog_t P[2][MAXP]; static int NP[2];
@@ -20,6 +20,8 @@ static void build(void) {
     add(tier, FM_CLIMB, 5, 0, W, W == 3 ? 1 : 2); add(tier, FM_CLIMB, 6, 1, W, 1);
     add(tier, FM_MUTEX, 3, 1, W, W == 3 ? 1 : 2);
     if (W > 1) add(tier, FM_OCCUPY, 2, 0, W, W == 2 ? K : 2);
+    /* every scheduling option of myth_yield_ex (half-half, local only, local first, steal only, steal first), mixed over the threads */
+    add(tier, FM_YIELDEX, 3, 2, W, W == 3 ? 1 : 2); add(tier, FM_YIELDEX, 4, 1, W, 1); add(tier, FM_YIELDEX, 2, 5, W, W == 1 ? 2 : 1);
     if (W > 1) { add(tier, FM_CUSTOM, 2, 1, W, 2); add(tier, FM_CUSTOM, 3, 0, W, W == 3 ? 1 : 2); add(tier, FM_CUSTOM, 3, 2, W, 1); }
   }
 }
@@ -27,7 +29,7 @@ static int nprogs(int tier) { build(); return NP[tier]; }
 static void config(int tier, int prog, int * W, int * K) { build(); *W = P[tier][prog].W; *K = P[tier][prog].K; }
 static void describe(int tier, int prog, char * b, size_t n) {
   build(); prog_t * p = &P[tier][prog];
-  static const char * const fm[] = { "fan-out", "yield ping-pong (slides the queue to its lower boundary)", "parent-first burst (fills the queue to its upper boundary)", "mutex wake-ups", "custom steal function (peek, decline, accept)", "occupied workers: a runnable thread queued behind a thread that keeps its worker must be taken by an idle worker, whichever worker is the victim" };
+  static const char * const fm[] = { "fan-out", "yield ping-pong (slides the queue to its lower boundary)", "parent-first burst (fills the queue to its upper boundary)", "mutex wake-ups", "custom steal function (peek, decline, accept)", "occupied workers: a runnable thread queued behind a thread that keeps its worker must be taken by an idle worker, whichever worker is the victim", "myth_yield_ex with all five scheduling options" };
   snprintf(b, n, "%s: %d threads, %d yields each", fm[p->fam], p->n, p->y);
 }
 static prog_t * cur; static volatile int ran[8], resumed[8], declined, accepted, peeked; static myth_mutex_t m;
@@ -35,7 +37,7 @@ static void * body(void * a) {
   int i = (int)(long)a;
   ran[i]++;
   MV_CHECK(ran[i] == 1, "thread %d started %d times", i, ran[i]);
-  for (int k = 0; k < cur->y; k++) { myth_yield(); resumed[i]++; }
+  for (int k = 0; k < cur->y; k++) { if (cur->fam == FM_YIELDEX) myth_yield_ex((i + k) % 5); else myth_yield(); resumed[i]++; }
   if (cur->fam == FM_MUTEX) { myth_mutex_lock(&m); myth_yield(); myth_mutex_unlock(&m); }
   return (void *)(long)(i + 10);
 }
